@@ -48,6 +48,8 @@ func (o Op) String() string {
 		return "leave-wal(" + o.Mode + ")"
 	case "stray-wal":
 		return "stray-wal(" + o.Mode + ")"
+	case "repage":
+		return fmt.Sprintf("page_size=%d", o.Max)
 	}
 	return o.Kind
 }
@@ -244,6 +246,20 @@ func (r *runner) run() {
 			ok = r.strayWAL(op.Mode)
 		case "restart":
 			ok = r.restart()
+		case "repage":
+			// PRAGMA page_size on a database that has no page yet: the next creating transaction uses op.Max bytes per page
+			if r.img != nil && r.img.N() > 0 {
+				r.res.Harness = "illegal program: repage on a database that has pages"
+				ok = false
+				break
+			}
+			r.c.PageSize = int(op.Max)
+			r.a.Close()
+			r.b.Close()
+			r.a = pager.NewConn(r.node.M, "db", 1, r.c.PageSize)
+			r.b = pager.NewConn(r.node.M, "db", 2, r.c.PageSize)
+			r.img = &oracle.Image{PageSize: r.c.PageSize}
+			ok = true
 		}
 		if !ok {
 			classes = append(classes, "stop")
